@@ -7,6 +7,7 @@ package main
 
 import (
 	"bytes"
+	"encoding/json"
 	"fmt"
 	"strings"
 	"sync"
@@ -227,18 +228,36 @@ func genC16(r *common.RNG, id string) (*Case, *c16Expect) {
 	if r.Chance(1, 14) {
 		n = 0 // no golden entry at all: an UpdateScripts run that has nothing to compare
 	}
-	golden := map[string]string{}
-	isEntry := map[string]bool{}
-	var order []string
+	// An entry has a LOCATION (where setup unpacks it, a clean path relative to $WORK) and a NAME
+	// (how the archive spells it: through $WORK, ${/}, $exe, or not canonically).  Comparisons
+	// address the location; updates are written back under the name, byte for byte.
+	golden := map[string]string{}  // location -> text on disk (with duplicates: the last one)
+	regName := map[string]string{} // location -> the name it is registered under (the last one)
+	isEntry := map[string]bool{}   // locations
+	rawKey := map[string]bool{}    // locations whose registered name is absolute and not clean ($WORK/./x)
+	var order []string             // locations, in archive order
 	perm := append([]string{}, c16Names...)
 	for i := len(perm) - 1; i > 0; i-- {
 		j := r.Intn(i + 1)
 		perm[i], perm[j] = perm[j], perm[i]
 	}
+	respell := r.Chance(1, 2)
 	for i := 0; i < n; i++ {
-		name := perm[i]
+		loc := perm[i]
 		if r.Chance(1, 12) && i > 0 {
-			name = perm[r.Intn(i)] // a duplicate entry name
+			loc = perm[r.Intn(i)] // a second entry for the same location (same name or another spelling)
+		}
+		name := loc
+		if respell && r.Chance(1, 2) {
+			name = spellName(r, loc)
+			if r.Chance(1, 10) {
+				// absolute and not clean: unpacked at the same place, but registered under the
+				// uncleaned path, which only the very same spelling addresses
+				name = pick(r, []string{"$WORK/./", "$WORK//"}) + loc
+			}
+		}
+		if _, dup := regName[loc]; dup && !respell {
+			name = regName[loc]
 		}
 		text := pick(r, c16Contents)
 		if text != "" && !strings.HasSuffix(text, "\n") {
@@ -248,13 +267,19 @@ func genC16(r *common.RNG, id string) (*Case, *c16Expect) {
 			text = "plain golden\n" // (a Case travels as JSON: keep the file itself valid UTF-8)
 		}
 		c.Files = append(c.Files, AFile{Name: name, Data: text})
-		golden[name] = text // with duplicates the last one is what is on disk
-		isEntry[name] = true
-		order = append(order, name)
+		golden[loc] = text
+		regName[loc] = name
+		rawKey[loc] = strings.HasPrefix(name, "$WORK/./") || strings.HasPrefix(name, "$WORK//")
+		isEntry[loc] = true
+		order = append(order, loc)
 	}
-	// an unrelated entry that must never change
+	// an unrelated entry that must never change (its name too)
 	if r.Chance(1, 2) {
-		c.Files = append(c.Files, AFile{Name: "other.txt", Data: "untouched\n-- not a marker\n"})
+		other := "other.txt"
+		if respell {
+			other = pick(r, []string{"other.txt", "./other.txt", "$WORK/other.txt", "other$exe.txt", ".//other.txt", "x/../other.txt"})
+		}
+		c.Files = append(c.Files, AFile{Name: other, Data: "untouched\n-- not a marker\n"})
 		isEntry["other.txt"] = true
 	}
 	if !classy {
@@ -263,8 +288,8 @@ func genC16(r *common.RNG, id string) (*Case, *c16Expect) {
 	failed := false
 	ex.Rerun = true
 	refs := map[string]int{}
-	for _, name := range order {
-		if refs[name]++; refs[name] > 1 {
+	for _, loc := range order {
+		if refs[loc]++; refs[loc] > 1 {
 			ex.Rerun = false // compared twice: one entry cannot match two actual contents
 		}
 	}
@@ -287,14 +312,24 @@ func genC16(r *common.RNG, id string) (*Case, *c16Expect) {
 			p, q = 1, 3
 		}
 	}
+	// record: a plain cmp of `actual` against the entry at loc, addressed by `ref`
+	record := func(loc, actual string) {
+		if actual != golden[loc] {
+			ex.Updates[regName[loc]] = actual
+		}
+	}
+	fails := func(lineNo int) {
+		ex.FailLines = append(ex.FailLines, lineNo)
+		failed = true
+	}
 	phase(1, 2)
-	for i, name := range order {
+	for i, loc := range order {
 		if failed && !c.Coe {
 			break
 		}
 		phase(1, 2)
-		want := golden[name]
-		kind := r.Intn(12)
+		want := golden[loc]
+		kind := r.Intn(19)
 		if classy {
 			kind = r.Intn(6)
 		}
@@ -313,8 +348,8 @@ func genC16(r *common.RNG, id string) (*Case, *c16Expect) {
 		dirs := []string{"", "sub", "sub/deep", "golden"}
 		if classy {
 			// no cd
-		} else if d := strings.LastIndex(name, "/"); d >= 0 && r.Chance(1, 2) {
-			chdir(name[:d])
+		} else if d := strings.LastIndex(loc, "/"); d >= 0 && r.Chance(1, 2) {
+			chdir(loc[:d])
 		} else if r.Chance(1, 3) {
 			chdir(pick(r, dirs))
 		}
@@ -323,33 +358,46 @@ func genC16(r *common.RNG, id string) (*Case, *c16Expect) {
 			lines, src = c16Producer(r, actual, i)
 		}
 		c.Lines = append(c.Lines, lines...)
-		ref := c16Ref(r, cwd, name)
+		ref := c16Ref(r, cwd, loc)
+		if rawKey[loc] {
+			// registered under the uncleaned absolute path: any other way of addressing the file
+			// is not recognised by the implementation as it stands (the model copies that; the
+			// direct oracle does not judge these scripts)
+			ex.Known = false
+			if r.Chance(1, 2) {
+				ref = regName[loc]
+			}
+		} else if !classy && r.Chance(1, 25) {
+			// the same from the other side: an absolute, uncleaned way of addressing a registered entry
+			ref = pick(r, []string{"$WORK/./", "$WORK//", "$WORK/sub/../"}) + loc
+			ex.Known = false
+		}
 		lineNo := len(c.Lines) + 1
+		add := func(l string) int {
+			c.Lines = append(c.Lines, l)
+			return len(c.Lines)
+		}
 		switch kind {
 		case 0, 1, 2, 3, 4, 5: // plain cmp against the archive entry
-			c.Lines = append(c.Lines, "cmp "+src+" "+ref)
-			if actual != want {
-				ex.Updates[name] = actual
-			}
+			add("cmp " + src + " " + ref)
+			record(loc, actual)
 		case 6: // against a copy outside the archive
-			c.Lines = append(c.Lines, "cp "+ref+" copy"+fmt.Sprint(i)+".txt")
-			lineNo++
-			c.Lines = append(c.Lines, "cmp "+src+" copy"+fmt.Sprint(i)+".txt")
+			add("cp " + ref + " copy" + fmt.Sprint(i) + ".txt")
+			n := add("cmp " + src + " copy" + fmt.Sprint(i) + ".txt")
 			if actual != want {
-				ex.FailLines = append(ex.FailLines, lineNo)
-				failed = true
+				fails(n)
 			}
 		case 10, 11:
 			// a file outside the archive that has, from the current directory, the very
 			// relative name an entry has from $WORK: it must not be taken for that entry
-			base := name[strings.LastIndex(name, "/")+1:]
+			base := loc[strings.LastIndex(loc, "/")+1:]
 			var where string
 			for _, d := range []string{"sub", "golden", "sub/deep", ""} {
 				p := base
 				if d != "" {
 					p = d + "/" + base
 				}
-				if !isEntry[p] && p != name {
+				if !isEntry[p] && p != loc {
 					where = d
 					break
 				}
@@ -358,41 +406,103 @@ func genC16(r *common.RNG, id string) (*Case, *c16Expect) {
 			if where != "" {
 				full = where + "/" + base
 			}
-			if isEntry[full] || full == name {
-				c.Lines = append(c.Lines, "cmp "+src+" "+ref)
-				if actual != want {
-					ex.Updates[name] = actual
-				}
+			if isEntry[full] || full == loc {
+				add("cmp " + src + " " + ref)
+				record(loc, actual)
 				break
 			}
-			c.Lines = append(c.Lines, "cp $WORK/"+name+" $WORK/"+full)
+			add("cp $WORK/" + loc + " $WORK/" + full)
 			chdir(where)
 			lines, src = c16Producer(r, actual, i) // the producer's file must be in the new directory
 			c.Lines = append(c.Lines, lines...)
-			lineNo = len(c.Lines) + 1
 			// the outside file is now reachable under a relative name that, read from $WORK,
 			// would be (or look like) an archive entry
-			outRef := base
-			c.Lines = append(c.Lines, "cmp "+src+" "+outRef)
+			n := add("cmp " + src + " " + base)
 			if actual != want {
-				ex.FailLines = append(ex.FailLines, lineNo)
-				failed = true
+				fails(n)
 			}
 		case 7: // cmpenv never updates
-			c.Lines = append(c.Lines, "cmpenv "+src+" "+ref)
+			add("cmpenv " + src + " " + ref)
 			if strings.Contains(want, "$") {
 				ex.Known = false
 			}
 			if actual != want {
-				ex.FailLines = append(ex.FailLines, lineNo)
-				failed = true
+				fails(lineNo)
 			}
 		case 8, 9: // negated cmp never updates
-			c.Lines = append(c.Lines, "! cmp "+src+" "+ref)
+			add("! cmp " + src + " " + ref)
 			if actual == want {
-				ex.FailLines = append(ex.FailLines, lineNo)
-				failed = true
+				fails(lineNo)
 			}
+		case 12:
+			// the entry's file is moved away: the file at the new path is NOT an archive entry (a
+			// mismatch against it fails and records nothing); it is then moved back
+			moved := fmt.Sprintf("moved%d.txt", i)
+			add("mv " + ref + " " + moved)
+			n := add("cmp " + src + " " + moved)
+			if actual != want {
+				fails(n)
+			}
+			add("mv " + moved + " " + ref)
+		case 13:
+			// moved away and another file put at the entry's path: what is at the path IS the entry
+			add("mv " + ref + " " + fmt.Sprintf("away%d.txt", i))
+			add("cp " + fmt.Sprintf("away%d.txt", i) + " " + ref)
+			add("cmp " + src + " " + ref)
+			record(loc, actual)
+		case 14:
+			// removed and written again by the script itself
+			add("rm " + ref)
+			add("cp " + src + " " + ref)
+			lines2, src2 := c16Producer(r, want, i+50)
+			if c16Produced(want) != want {
+				lines2, src2 = []string{"exec " + helperName + " unhex " + hexOrEmpty(want)}, "stdout"
+			}
+			c.Lines = append(c.Lines, lines2...)
+			// the file now holds `actual`, the comparison is made with the old golden text
+			golden[loc] = actual
+			add("cmp " + src2 + " " + ref)
+			record(loc, want)
+			if actual != want {
+				ex.Rerun = false // the script itself puts `actual` there again, the updated entry holds `want`
+			}
+		case 15:
+			// a symbolic link to the entry's file is not the entry
+			link := fmt.Sprintf("link%d", i)
+			add("symlink " + link + " -> $WORK/" + loc)
+			n := add("cmp " + src + " " + link)
+			if actual != want {
+				fails(n)
+			}
+			add("rm " + link)
+		case 16:
+			// a copy of the entry elsewhere, compared first (fails on a mismatch), then the entry itself
+			cp := fmt.Sprintf("dup%d.txt", i)
+			add("cp " + ref + " " + cp)
+			n := add("cmp " + src + " " + cp)
+			if actual != want {
+				fails(n)
+			}
+			if c.Coe || actual == want {
+				add("cmp " + src + " " + ref)
+				record(loc, actual)
+			}
+		case 17, 18:
+			// one output, several comparisons: accepting a mismatch must leave stdout and stderr as
+			// they were, so the second comparison sees the same text
+			if src != "stdout" && src != "stderr" {
+				add("cmp " + src + " " + ref)
+				record(loc, actual)
+				break
+			}
+			add("cmp " + src + " " + ref)
+			keep := fmt.Sprintf("kept%d.txt", i)
+			add("cp " + src + " " + keep)
+			add("cmp " + keep + " " + ref)
+			if kind == 18 {
+				add("cmp " + src + " " + ref)
+			}
+			record(loc, actual)
 		}
 		if r.Chance(1, 6) && c.Cmds {
 			c.Lines = append(c.Lines, fmt.Sprintf("probe after-%d", i))
@@ -414,6 +524,14 @@ func genC16(r *common.RNG, id string) (*Case, *c16Expect) {
 		c = nonCanonical(r, c)
 	}
 	return c, ex
+}
+
+func hexOrEmpty(text string) string {
+	hx := common.Hex([]byte(text))
+	if hx == "-" || hx == "" {
+		return "''"
+	}
+	return hx
 }
 
 func sameArchiveBut(before, after *txtar.Archive, updated map[string][]byte) string {
@@ -655,6 +773,17 @@ func (rn *runner) c16Main() {
 	f := rn.f
 	for _, c := range loadCorpus(f.Corpus) {
 		c.Upd = true
+		if c.Expect != "" {
+			// hand-written with the expectation of the direct oracle next to it
+			var ex c16Expect
+			if err := json.Unmarshal([]byte(c.Expect), &ex); err == nil {
+				if ex.Updates == nil {
+					ex.Updates = map[string]string{}
+				}
+				rn.c16Judge(c, &ex)
+				continue
+			}
+		}
 		if strings.HasPrefix(c.Note, "no-update") {
 			// hand-written: every comparison of the script agrees, nothing may be recorded or written
 			rn.c16Judge(c, &c16Expect{Updates: map[string]string{}, Known: true, Rerun: true})
